@@ -7,6 +7,7 @@ leftover of a FAILED import (never while the module is loaded or loading), a fin
 every completed import of a path yields the same object, a module whose body is on the frame stack is a cycle
 ImportError, load/compile failures are ImportErrors that register nothing, a failed import is retried from
 scratch, the active module is the module of the running closure, built-ins are in every started module.
+The frame stack of M is the whole caller chain of fibers (is_loading_module walks it; handlers are per fiber).
 Refinement (ModRefine.v): for EVERY program of the mini-language, module map and fuel the Mechanism evaluator shows
 what the Spec evaluator shows (C14_mech_refines_spec) - so impl == M on a case implies impl == S on it.
 Tie: (a) translator: stage order / literals / load_frame sites of vm.rs + compiler.rs regenerated into
@@ -37,7 +38,7 @@ TRUSTED = [
 ASSUMPTIONS = [
     "one interpreter, one run (Vm::reset / a second Vm::execute belong to C15)",
     "the host loader is a function of the path and reports a missing module as an ImportError (harness, tests, default loader do)",
-    "fibers are not used by the generated programs (a fiber switch also goes through load_frame; C09 owns fibers)",
+    "fibers: only Fiber.new(closure).call() chains (no yield, no resumption); an exception that leaves a fiber ends the run (C09 owns fibers)",
     "generated programs stay below the frame limit; the import at the frame limit is a fixed probe (and a theorem about M)",
 ]
 
@@ -785,7 +786,7 @@ def run(ctx):
     fam = [v for v in ctx.violations if v.get("family")]
     for v in fam[:1]:
         try:
-            small = shrink(ch, v["prog"])
+            small = shrink(ch, v["prog"], budget=(8 if "timeout" in str(v.get("actual")) else 30))
             models, recs = ch.observe([small], "shrunk")
             if models[0]:
                 v.update({"input": wire(small), "prog": small, "main": models[0]["main"], "modules": models[0]["mods"],
